@@ -60,7 +60,9 @@ QUERY = {
 RUN_BACKEND = {"atlas": "atlas", "cms_aod": "cms_r5", "cms_miniaod": "cms_r7"}
 _scratch = None
 
-FILE_CLASSES = ["one", "one_str", "one_path", "several", "dup", "two_dirs", "missing", "empty", "spacey"]
+FILE_CLASSES = ["one", "one_str", "one_path", "several", "dup", "two_dirs", "missing", "empty", "spacey",
+                "symlink_one", "symlinks_two_targets", "real_plus_link_elsewhere", "relative"]
+TWO_DIRS = ("two_dirs", "real_plus_link_elsewhere")
 OUTDIR_KINDS = ["given", "none", "missing_dir"]
 IMAGE_SOURCES = ["dataset_default", "dataset_custom", "md_one", "md_two", "md_first_in_chain"]
 CHUNK_POOL = [["stdout", "building\n"], ["stderr", "warning: something\n"], ["stdout", ""], ["stdout", "line1\nline2\nline3\n"],
@@ -169,7 +171,8 @@ def make_case(prop, tier, seed, i):
     for _ in range(n):
         b = rng.choice(BACKENDS)
         fc = weighted(rng, [("one", 4), ("several", 4), ("one_str", 1), ("one_path", 1), ("dup", 1), ("two_dirs", 1),
-                            ("missing", 1), ("empty", 1), ("spacey", 1)])
+                            ("missing", 1), ("empty", 1), ("spacey", 1), ("symlink_one", 1), ("symlinks_two_targets", 1),
+                            ("real_plus_link_elsewhere", 1), ("relative", 1)])
         im = rng.choice(IMAGE_SOURCES)
         ok = weighted(rng, [("given", 6), ("none", 2), ("missing_dir", 1)])
         nch = rng.randrange(0, 9)
@@ -279,6 +282,32 @@ def _materialise_files(base, tag, fc):
     if fc == "spacey":
         fs = [mk(d3, "file one.root"), mk(d3, "two.root")]
         return fs, fs
+    if fc == "symlink_one":
+        # the input is a symbolic link whose target lives in another directory: the link's own directory is the data directory
+        t = mk(d2, "target_a.root")
+        ln = os.path.join(d1, "link_a.root")
+        if not os.path.lexists(ln):
+            os.symlink(t, ln)
+        return [ln], [ln]
+    if fc == "symlinks_two_targets":
+        t1, t2 = mk(d2, "target_a.root"), mk(d3, "target_b.root")
+        fs = []
+        for n, t in (("link_a.root", t1), ("link_b.root", t2)):
+            ln = os.path.join(d1, n)
+            if not os.path.lexists(ln):
+                os.symlink(t, ln)
+            fs.append(ln)
+        return fs, fs
+    if fc == "real_plus_link_elsewhere":
+        t = mk(d1, "a.root")
+        ln = os.path.join(d2, "link_to_a.root")
+        if not os.path.lexists(ln):
+            os.symlink(t, ln)
+        return [t, ln], [t, ln]
+    if fc == "relative":
+        f = mk(d1, "rel.root")
+        r = os.path.relpath(f, os.getcwd())
+        return [r], [r]
     raise ValueError(fc)
 
 
@@ -674,7 +703,7 @@ def judge(rec, viols, bump, states, nontrivial, start_state, real_open):
         return
     if rec.get("ledger_left"):
         V("tempdir-removed", f"temporary working directories still exist after the call: {rec['ledger_left']}")
-    if op["files"] == "two_dirs":
+    if op["files"] in TWO_DIRS:
         bump("reach:two_dirs")
         if rec["execute"] == "ok":
             V("bad-files-rejected-early", "files from two directories were accepted")
